@@ -188,6 +188,11 @@ class Scenario:
                 x, f = live[0] if c == "f" else live[-1]
                 log.add("func_finish", e=x)
                 loop.do(f.set_result, None)
+        elif c == "X":
+            # the input is taken away (upstream.disconnect(node)): what the node has received stays to be delivered
+            self.disconnected = True
+            log.add("disconnect")
+            loop.do(self.sources[0].disconnect, self.node)
         elif c == "g":
             live = [(x, f) for x, f in self.tasks if not f.done()]
             if live:
@@ -241,7 +246,9 @@ class Scenario:
     def enabled(self, c, arg=None, max_elems=4):
         loop, log = self.loop, self.log
         if c == "e":
-            return self.next_elem < max_elems
+            return self.next_elem < max_elems and not getattr(self, "disconnected", False)
+        if c == "X":
+            return bool(self.cfg.get("disconnect")) and not getattr(self, "disconnected", False) and self.next_elem > 0
         if c == "d":
             return bool(log.pending)
         if c == "D":
@@ -367,6 +374,8 @@ def alphabet(cfg):
         al += ["a", "w"]
     if k == "map_async":
         al += ["f", "F"]
+    if cfg.get("disconnect"):
+        al += ["X"]
     if cfg.get("fine"):
         al += ["t"]          # single callbacks instead of whole iterations: emissions / completions fall between two callbacks
     if cfg.get("faults") and k == "map_async":
@@ -405,7 +414,7 @@ def enumerate_schedules(cfg, depth, limit, rng):
 
 def random_schedules(cfg, count, maxlen, rng):
     al = alphabet(cfg)
-    w = {"e": 3, "s": 4, "d": 2, "D": 1, "a": 2, "w": 1, "f": 2, "F": 1, "x": 1, "g": 2, "t": 6}
+    w = {"e": 3, "s": 4, "d": 2, "D": 1, "a": 2, "w": 1, "f": 2, "F": 1, "x": 1, "g": 2, "t": 6, "X": 1}
     out = []
     for _ in range(count):
         n = rng.randint(4, maxlen)
